@@ -813,6 +813,14 @@ func main() {
 	}
 	files["Skeleton_factories.v"] = wf
 	names = append(names, "Skeleton_factories.v")
+	wm := &strings.Builder{}
+	wm.WriteString("(* GENERATED by /verif/translator from /repo's working tree. Do not edit. *)\nFrom Coq Require Import List String.\nImport ListNotations.\nOpen Scope string_scope.\n\n")
+	if err := emitModelWrites(wm, fset, repo); err != nil {
+		fmt.Fprintln(os.Stderr, "translator:", err)
+		status = 1
+	}
+	files["Skeleton_modelwrites.v"] = wm
+	names = append(names, "Skeleton_modelwrites.v")
 	for _, n := range names {
 		if err := os.WriteFile(filepath.Join(outdir, n), []byte(files[n].String()), 0o644); err != nil {
 			fmt.Fprintln(os.Stderr, err)
